@@ -13,6 +13,7 @@ import (
 	"github.com/Jigsaw-Code/outline-ss-server/verifrt/simnet"
 	"github.com/Jigsaw-Code/outline-ss-server/verifrt/simrt"
 	"github.com/prometheus/client_golang/prometheus"
+	dto "github.com/prometheus/client_model/go"
 	"github.com/prometheus/common/expfmt"
 )
 
@@ -594,9 +595,12 @@ func runC20s(rc *RunCtx) {
 }
 
 // c20f: the database changes its mind between two visits of one client (same
-// address, same key, no overlap): each visit is labelled by what the database
-// said at that visit (XD on an error, ZZ on a miss, else its answer), in the
-// tunnel-time family as everywhere else - never by what it said the time before.
+// address, same key, no overlap). "Every client address maps to exactly one
+// location label": whatever label a visit gets (that depends on when an
+// implementation consults the database, which the statement leaves open), it
+// gets the same one in every family that carries a location. After the two
+// visits, all location-labelled families therefore show the same set of
+// locations for the only client of the run.
 func init() {
 	Register(&Scenario{Name: "c20f", Prop: "C20", MaxSteps: 50000, Run: runC20f})
 }
@@ -621,33 +625,14 @@ func runC20f(rc *RunCtx) {
 	s2 := (s1 + 1 + G.Draw(3)) % 4
 	key := "key-flip"
 	local := &net.TCPAddr{IP: net.IPv4(203, 0, 113, 5), Port: 9000}
-	type visit struct{ s0, s1, e0, e1 time.Duration }
-	do := func(port int, d time.Duration, udp bool) visit {
-		var v visit
-		if udp {
-			v.s0 = simrt.Elapsed()
-			um := prom.AddUDPNatEntry(&net.UDPAddr{IP: ip, Port: port}, key)
-			v.s1 = simrt.Elapsed()
-			simrt.Sleep(d)
-			v.e0 = simrt.Elapsed()
-			um.RemoveNatEntry()
-			v.e1 = simrt.Elapsed()
-			return v
-		}
+	visit := func(port int, d time.Duration) {
 		tm := prom.AddOpenTCPConnection(&fakeConn{remote: &net.TCPAddr{IP: ip, Port: port}, local: local})
-		v.s0 = simrt.Elapsed()
 		tm.AddAuthenticated(key)
-		v.s1 = simrt.Elapsed()
 		simrt.Sleep(d)
-		v.e0 = simrt.Elapsed()
 		tm.AddClosed("OK", metrics.ProxyMetrics{ClientProxy: 100, ProxyTarget: 90, TargetProxy: 500, ProxyClient: 510}, d)
-		v.e1 = simrt.Elapsed()
-		return v
 	}
-	d1 := time.Duration(1+G.Draw(5)) * time.Second
-	d2 := time.Duration(1+G.Draw(5)) * time.Second
 	set(s1)
-	v1 := do(52001, d1, G.Draw(3) == 0)
+	visit(52001, time.Duration(1+G.Draw(5))*time.Second)
 	if G.Draw(2) == 0 {
 		simrt.Sleep(time.Duration(G.Draw(3)) * time.Second)
 		collectFamilies(prom)
@@ -655,36 +640,64 @@ func runC20f(rc *RunCtx) {
 	}
 	simrt.Sleep(time.Duration(G.Draw(3)) * time.Second)
 	set(s2)
-	v2 := do(52001+G.Draw(2), d2, G.Draw(3) == 0)
+	visit(52001+G.Draw(2), time.Duration(1+G.Draw(5))*time.Second)
 	simrt.Sleep(time.Second)
-	vals, p := collectFamilies(prom)
 	rc.Nontrivial = true
 	rc.State(fmt.Sprintf("%s->%s", labels[s1], labels[s2]))
-	if p != nil {
-		rc.Inconclusive = append(rc.Inconclusive, "scrape-panicked")
-		return
-	}
-	perLoc := map[string]float64{}
-	for k, v := range vals["tunnel_time_seconds_per_location"] {
-		for _, l := range strings.Split(k, ",") {
-			if strings.HasPrefix(l, "location=") {
-				perLoc[strings.TrimPrefix(l, "location=")] += v
+	// every family with a location label (collected directly: the registry's own
+	// goroutines have no place inside a run)
+	sets := map[string]string{} // family -> sorted locations with a non-zero sample
+	{
+		ch := make(chan prometheus.Metric, 100000)
+		var panicked any
+		func() {
+			defer func() { panicked = recover() }()
+			prom.Collect(ch)
+		}()
+		close(ch)
+		if panicked != nil {
+			rc.Inconclusive = append(rc.Inconclusive, "scrape-panicked")
+			return
+		}
+		locs := map[string]map[string]bool{}
+		for m := range ch {
+			d := m.Desc().String()
+			k := strings.Index(d, `fqName: "`)
+			if k < 0 {
+				continue
+			}
+			name := d[k+9:]
+			name = name[:strings.Index(name, `"`)]
+			var pb dto.Metric
+			if m.Write(&pb) != nil {
+				continue
+			}
+			loc, ok := labelsOf(&pb)["location"]
+			if !ok {
+				continue
+			}
+			if locs[name] == nil {
+				locs[name] = map[string]bool{}
+			}
+			if pb.GetCounter().GetValue()+pb.GetGauge().GetValue()+float64(pb.GetHistogram().GetSampleCount()) != 0 {
+				locs[name][loc] = true
+			}
+		}
+		for name, l := range locs {
+			if len(l) > 0 {
+				sets[name] = strings.Join(simrt.SortedKeys(l), ",")
 			}
 		}
 	}
-	const eps = 1e-6
-	for i, x := range []struct {
-		st int
-		v  visit
-	}{{s1, v1}, {s2, v2}} {
-		lo, hi := (x.v.e0 - x.v.s1).Seconds(), (x.v.e1 - x.v.s0).Seconds()
-		if got := perLoc[labels[x.st]]; got < lo-eps || got > hi+eps {
-			rc.Failf("visit-labelled-by-stale-lookup", "visit %d of client %s lasted between %.6f and %.6f s while the database answered %q for it (the other visit: %q); tunnel_time_seconds_per_location has %.6f s under %q (all: %v)", i+1, ip, lo, hi, labels[x.st], labels[[]int{s2, s1}[i]], got, labels[x.st], perLoc)
-		}
+	if len(sets) < 2 {
+		rc.Inconclusive = append(rc.Inconclusive, "fewer-than-two-location-families")
+		return
 	}
-	for l, v := range perLoc {
-		if l != labels[s1] && l != labels[s2] && v > eps {
-			rc.Failf("location-label-unexpected:"+l, "tunnel time under location %q, which the database never gave for the only client of the run (%q, then %q)", l, labels[s1], labels[s2])
+	names := simrt.SortedKeys(sets)
+	for _, n := range names[1:] {
+		if sets[n] != sets[names[0]] {
+			rc.Failf("one-address-two-labels", "the only client of the run, %s, visited twice (the database said %q, then %q): family %s has it under location(s) %s, family %s under %s", ip, labels[s1], labels[s2], names[0], sets[names[0]], n, sets[n])
+			break
 		}
 	}
 	rc.Phase = "done"
